@@ -467,7 +467,12 @@ async fn run_raw(stim: &Value, log: &Rec) {
         let msg = json_bytes(&raw["msg"]);
         let flag = raw["flag"].as_u64().unwrap_or(0) as u8;
         let payload = if flag == 1 { crate::labs::framing::compress_with(raw["comp"].as_str().unwrap_or(""), &msg) } else { msg };
-        crate::labs::framing::frame(flag, &payload)
+        // raw.lead: that many well-formed unflagged one-byte messages come first (a body with more messages than the call shape uses is
+        // still a body every frame of which must be acceptable)
+        let mut b: Vec<u8> = vec![];
+        for _ in 0..raw["lead"].as_u64().unwrap_or(0) { b.extend(crate::labs::framing::frame(0, &[5])); }
+        b.extend(crate::labs::framing::frame(flag, &payload));
+        b
     };
     // the request body arrives either whole with its exact size announced (like a content-length), or - a third of the time - in two
     // halves with empty DATA frames before, between and after them (legal for any HTTP/2 peer)
